@@ -59,7 +59,10 @@ open MLPE
     simp only [dagLaunch]
     split
     · split
-      · simp
+      · simp only [core_retTo, core_notify, core_notifyAll]
+        split
+        · split <;> simp
+        · rfl
       · simp only [ih]; simp
     · simp
 
